@@ -136,6 +136,21 @@ def battery(fqe, seed, tier, log=None):
                 put(f"rotate:{tag}", numpy.round(copy.deepcopy(w).transform(q)[3].get_coeff(key), 9))
             except Exception as exc:
                 out[f"rotate:{tag}"] = "raise:" + type(exc).__name__
+            # the same graph rotated again and again (rotation, back-rotation as in the quadratic propagator, and a
+            # one-body evolution), on the object itself rather than on a copy
+            if dim <= 6000:
+                mark("rotate-repeat " + tag)
+                try:
+                    wr = copy.deepcopy(w)
+                    _, _, _, t1 = wr.transform(q)
+                    _, _, _, t2 = t1.transform(q.conj().T)
+                    put(f"rotate-back:{tag}", numpy.round(t2.get_coeff(key), 8))
+                    if wn.norm() > 0:
+                        hq = (q + q.conj().T) / 2
+                        put(f"evolve1:{tag}", numpy.round(wn.time_evolve(0.1, fqe.get_restricted_hamiltonian((hq,))).get_coeff(key), 9))
+                        put(f"evolve1-again:{tag}", numpy.round(wn.time_evolve(-0.2, fqe.get_restricted_hamiltonian((hq,))).get_coeff(key), 9))
+                except Exception as exc:
+                    out[f"rotate-back:{tag}"] = "raise:" + type(exc).__name__
     # spin-broken and number-broken containers (cross-sector maps, dn up to 2)
     for norb, n in ((2, 2), (3, 2), (3, 3), (4, 1)):
         mark(f"spinbroken {norb} {n}")
